@@ -11,6 +11,8 @@ import (
 	"sort"
 	"strconv"
 	"strings"
+	"sync"
+	"sync/atomic"
 
 	"github.com/ozontech/file.d/logger"
 	"github.com/ozontech/file.d/offset"
@@ -26,6 +28,8 @@ import (
 //   c07.rt <now> T                     save the table, read the file, load it with a fresh offsetDB
 //   c07.parse <now> <content>          offsetDB.parse
 //   c07.seq <nsrc> <nops> ops…         commits / truncations / saves in a sequential schedule
+//   c07.conc <nsrc> <ncommits> <nsaves> one committing goroutine per source against a saving goroutine;
+//                                      result = the observed event log cs.<i>.<k> cd.<i>.<k> ss se <L>
 // Process part (this binary re-executed as a child under strace, faults / SIGKILL injected at a
 // syscall of the save; the parent then loads what is left on disk):
 //   c07.proto file|gen <nf> (<err|kill> <op>)… <hasold> old new
@@ -42,6 +46,7 @@ func init() {
 	execs["c07.parse"] = execC07Parse
 	execs["c07.seq"] = execC07Seq
 	execs["c07.proto"] = execC07Proto
+	execs["c07.conc"] = execC07Conc
 	gens["C07"] = genC07
 }
 
@@ -236,6 +241,68 @@ func execC07Seq(t *hx.Toks) string {
 		return "bad-case"
 	}
 	return strings.Join(out, " ")
+}
+
+// execC07Conc: real concurrency between jobProvider.commit and offsetDB.save. Source i commits
+// offset 10k to stream "a" (k odd) / "b" (k even) for k = 1…ncommits; the saver saves and loads
+// nsaves times. Events are logged in the order a harness mutex serialised them: cs = commit about
+// to start, cd = commit returned, ss = save about to start, se = save returned and file loaded.
+func execC07Conc(t *hx.Toks) string {
+	defer quietLogs()()
+	nsrc, ncom, nsav := t.Int(), t.Int(), t.Int()
+	if t.Err != nil || !t.Done() || nsrc < 1 || nsrc > 8 {
+		return "bad-case"
+	}
+	dir := c07Dir()
+	defer os.RemoveAll(dir)
+	cur, tmp := filepath.Join(dir, "offsets"), filepath.Join(dir, "offsets.tmp")
+	var jobs []file.VerifC07Job
+	for i := 1; i <= nsrc; i++ {
+		jobs = append(jobs, file.VerifC07Job{Filename: "f" + strconv.Itoa(i), Inode: uint64(i), SourceID: uint64(i)})
+	}
+	p := file.NewVerifC07Provider(cur, tmp, false, jobs)
+	var mu sync.Mutex
+	var log []string
+	emit := func(s string) {
+		mu.Lock()
+		log = append(log, s)
+		mu.Unlock()
+	}
+	var seq atomic.Uint64
+	var wg sync.WaitGroup
+	for i := 1; i <= nsrc; i++ {
+		wg.Add(1)
+		go func(i int) {
+			defer wg.Done()
+			for k := 1; k <= ncom; k++ {
+				stream := "a"
+				if k%2 == 0 {
+					stream = "b"
+				}
+				emit(fmt.Sprintf("cs.%d.%d", i, k))
+				p.Commit(uint64(i), stream, int64(10*k), seq.Add(1))
+				emit(fmt.Sprintf("cd.%d.%d", i, k))
+				if k%2 == 0 {
+					runtime.Gosched()
+				}
+			}
+		}(i)
+	}
+	wg.Add(1)
+	go func() {
+		defer wg.Done()
+		for s := 0; s < nsav; s++ {
+			emit("ss")
+			p.Save()
+			var res string
+			withNow(0, func() {
+				res = c07SafeLoad(func() ([]file.VerifC07Job, error) { return file.VerifC07Load(cur) })
+			})
+			emit("se " + res)
+		}
+	}()
+	wg.Wait()
+	return strings.Join(log, " ")
 }
 
 // ------------------------------------------------------------------ process part
@@ -846,6 +913,15 @@ func genC07(w *bufio.Writer, rng *hx.Rng, tier string) {
 	// random strings over the format's own alphabet
 	for i := 0; i < nparse/5; i++ {
 		ps(3, rng.Bytes(rng.Range(0, 40), []byte("-: \nfile0a")))
+	}
+
+	// ---- commits against saves, real goroutines ---------------------------------------------
+	nconc := 60
+	if thorough {
+		nconc = 1500
+	}
+	for i := 0; i < nconc; i++ {
+		fmt.Fprintf(w, "c07.conc %d %d %d\n", rng.Range(1, 4), rng.Range(1, 40), rng.Range(1, 6))
 	}
 
 	// ---- commits / truncations / saves, sequential schedules --------------------------------
